@@ -14,7 +14,10 @@ def dispatch (line : String) : String :=
     match eng with
     | "ping" => "pong"
     | "ranges" => RangeMap.handle args
-    | "cfi" => Cfi.handle "cfi" args
+    | "cfi" =>
+      (match args with
+       | "cw" :: _ => CfiWalker.handle "cfi" args      -- the real CfiStackWalker (MdModel.CfiWalker)
+       | _ => Cfi.handle "cfi" args)
     | "win" => Win.handle "win" args
     | "sym" => SymParse.handle "sym" args
     | "symb" => Symbolize.handle "symb" args
